@@ -30,6 +30,47 @@ def build(b, buckets=BUCKETS):
     return calls, marks
 
 
+def durations(ctx, exe):
+    """the number of seconds a timer records IS its lifetime: timers that live for more than a second (whole seconds and a fraction),
+    stopped in every way, shared and local, on this or another thread; closures that run for more than a second"""
+    ms = 1030
+    opts = {"name": "h", "help": "h", "buckets": [F(0.5), F(5.0), F(60.0)]}
+    calls = [{"op": "histogram", "as": "h", "opts": opts}, {"op": "local", "of": "h", "as": "L"}]
+    stops = [("t1", "h", "stop_and_record", False), ("t2", "h", "observe_duration", False), ("t3", "h", "drop_timer", True), ("t4", "L", "stop_and_record", False), ("t5", "L", "drop_timer", False), ("t6", "h", "observe_duration", True)]
+    for t, of, _, _ in stops:
+        calls.append({"op": "start_timer", "of": of, "as": t})
+    calls.append({"op": "sleep", "ms": ms})
+    pos = {}
+    for t, of, op, th in stops:
+        pos[t] = len(calls)
+        calls += [{"op": op, "obj": t, "thread": th}, {"op": "lflush", "obj": "L"}, {"op": "metric", "obj": "h"}]
+    pos["c1"] = len(calls)
+    calls += [{"op": "observe_closure", "of": "h", "sleep_ms": ms}, {"op": "lflush", "obj": "L"}, {"op": "metric", "obj": "h"}]
+    pos["c2"] = len(calls)
+    calls += [{"op": "observe_closure", "of": "L", "sleep_ms": ms}, {"op": "lflush", "obj": "L"}, {"op": "metric", "obj": "h"}]
+    rs = run_api(ctx, exe, [{"id": 0, "calls": calls}], "dur")[0]
+    rp = {"events": [], "calls": calls}
+    if any("ok" not in x for x in rs):
+        ctx.violation("duration:call-failed", "a timer call failed: %s" % [x for x in rs if "ok" not in x][0], rp)
+        return 0
+    n = 0
+    prev = 0.0
+    lo = ms / 1000.0
+    for k, (name, what) in enumerate([(t, "%s timer, %s%s" % ("local" if of == "L" else "shared", op, " on another thread" if th else "")) for t, of, op, th in stops] + [("c1", "observe_closure_duration (shared)"), ("c2", "observe_closure_duration (local)")]):
+        h = rs[pos[name] + 2]["ok"]["hist"]
+        sm = fval(h["sum"])
+        rec = sm - prev
+        prev = sm
+        ret = rs[pos[name]]["ok"]
+        returned = fval(ret) if isinstance(ret, dict) and "bits" in ret else None
+        # lower bound only from the sleep itself; the upper bound is generous (a loaded machine may stretch any of it)
+        if h["count"] != k + 1 or not (lo <= rec < lo * (len(stops) + 3) + 60) or (returned is not None and returned >= 0 and abs(returned - rec) > 1e-6):
+            ctx.violation("duration:" + what.split(",")[0].replace(" ", "-"), "%s that lived for at least %.3f s contributed %r s (returned %r), sample count %s after %d stops" % (what, lo, rec, returned, h["count"], k + 1), rp)
+        else:
+            n += 1
+    return n
+
+
 def run(ctx):
     exe = build_harness()
     L = 4 if ctx.quick else 5
@@ -86,6 +127,9 @@ def run(ctx):
                 ctx.violation("sum-decreased", "history %s: sample sum went from %r to %r" % (hist_ops, prev_sum, sm), rp); ok = False; break
             prev_sum, prev_cnt = sm, cnt
         nok += 1 if ok else 0
+    nd = durations(ctx, exe)
+    nok += nd
+    ctx.cov["long_lived_timers_with_exact_duration"] = nd
     ctx.cov.update({"traces_validated_against_impl": nok, "behaviours_replayed": len(bs), "behaviours_conforming": nok,
                     "samples": [[(x["op"], x["t"], x["kind"], x["thread"]) for x in bs[len(bs) // 2]]], "exhaustive": ctx.quick,
                     "rule": "all histories of length %d over start (shared/local), observe_duration, stop_and_record, stop_and_discard, drop (same or another thread), closure observation, local flush "
@@ -99,6 +143,11 @@ def replay(path):
     b = d["replay"]["events"]
     ctx = Ctx("C18_replay", "quick", 0, LEVEL)
     exe = build_harness()
+    if d["replay"].get("calls"):
+        n = durations(ctx, exe)
+        print("verdict:", "all long-lived timers recorded their lifetime" if not ctx.violations else ctx.violations[0]["what"])
+        shutil.rmtree(ctx.work, ignore_errors=True)
+        return 1 if ctx.violations else 0
     calls, m = build(b)
     rs = run_api(ctx, exe, [{"id": 0, "calls": calls}], "replay")[0]
     bad = False
